@@ -187,6 +187,9 @@ type world struct {
 	// registry of every content ever put under a source name
 	regMu    sync.Mutex
 	registry map[string][]*srcVersion
+	// delivery / log events of earlier receiver generations
+	oldDelivered []delivered
+	oldLogged    []loggedRec
 
 	// per-request record (C08 and others)
 	reqMu sync.Mutex
@@ -563,6 +566,19 @@ func (f *flipReader) Read(p []byte) (int, error) {
 	return n, err
 }
 
+// deadReader breaks the request body when the sending process has died
+type deadReader struct {
+	r io.Reader
+	s *sender
+}
+
+func (d *deadReader) Read(p []byte) (int, error) {
+	if d.s.isDead() {
+		return 0, errConn
+	}
+	return d.r.Read(p)
+}
+
 type cutReader struct {
 	r     io.Reader
 	left  int64
@@ -616,98 +632,111 @@ func (s *sender) transmit(p sts.Payload) (n int, err error) {
 		return 0, errConn
 	}
 	gk := w.recv
-	if gk.Dom.Dead() {
-		return 0, errConn
+	type txRes struct {
+		n   int
+		err error
 	}
-	if !gk.Stage.Ready() {
-		return 0, fmt.Errorf("bin failed with response code: 503")
-	}
-	var stream io.Reader = io.MultiReader(bytes.NewReader(meta), enc)
-	if w.conf.Gzip != 0 {
-		pr, pw := io.Pipe()
-		gz, gerr := gzip.NewWriterLevel(pw, w.conf.Gzip)
-		if gerr != nil {
-			return 0, gerr
-		}
-		src := stream
-		go func() {
-			_, cerr := io.Copy(gz, src)
-			_ = gz.Close()
-			_ = pw.CloseWithError(cerr)
-		}()
-		zr, zerr := gzip.NewReader(pr)
-		if zerr != nil {
-			return 0, zerr
-		}
-		stream = zr
-		defer pr.Close()
-	}
-	dec, derr := payload.NewDecoder(len(meta), string(os.PathSeparator), stream)
-	if derr != nil {
-		return 0, fmt.Errorf("bin failed with response code: 500")
-	}
-	parts := dec.GetParts()
-	gk.Stage.Prepare(parts)
-	gk.restamp()
-	index := 0
-	for {
-		next, eof := dec.Next()
-		if eof {
-			break
-		}
-		if index >= len(parts) {
-			return 0, fmt.Errorf("bin failed with response code: 400")
-		}
-		if f.K == index {
-			switch f.Kind {
-			case fCutBefore:
+	r, died := serverCall(gk, func() txRes {
+		n, err := func() (int, error) {
+			if gk.Dom.Dead() {
 				return 0, errConn
-			case fFailPart:
-				// the receiver fails to take this part: partial-content answer
+			}
+			if !gk.Stage.Ready() {
+				return 0, fmt.Errorf("bin failed with response code: 503")
+			}
+			var stream io.Reader = &deadReader{r: io.MultiReader(bytes.NewReader(meta), enc), s: s}
+			if w.conf.Gzip != 0 {
+				pr, pw := io.Pipe()
+				gz, gerr := gzip.NewWriterLevel(pw, w.conf.Gzip)
+				if gerr != nil {
+					return 0, gerr
+				}
+				src := stream
+				go func() {
+					_, cerr := io.Copy(gz, src)
+					_ = gz.Close()
+					_ = pw.CloseWithError(cerr)
+				}()
+				zr, zerr := gzip.NewReader(pr)
+				if zerr != nil {
+					return 0, zerr
+				}
+				stream = zr
+				defer pr.Close()
+			}
+			dec, derr := payload.NewDecoder(len(meta), string(os.PathSeparator), stream)
+			if derr != nil {
+				return 0, fmt.Errorf("bin failed with response code: 500")
+			}
+			parts := dec.GetParts()
+			gk.Stage.Prepare(parts)
+			gk.restamp()
+			index := 0
+			for {
+				next, eof := dec.Next()
+				if eof {
+					break
+				}
+				if index >= len(parts) {
+					return 0, fmt.Errorf("bin failed with response code: 400")
+				}
+				if f.K == index {
+					switch f.Kind {
+					case fCutBefore:
+						return 0, errConn
+					case fFailPart:
+						// the receiver fails to take this part: partial-content answer
+						w.lat()
+						return index, fmt.Errorf("bin failed validation; successful part(s): %d", index)
+					case fCutMid:
+						b, e := parts[index].GetSlice()
+						keep := (e - b) / 2
+						next = &cutReader{r: next, left: keep}
+					case fCorrupt:
+						b, e := parts[index].GetSlice()
+						next = &flipReader{r: next, at: (e - b) / 2}
+					}
+				}
+				file := &sts.Partial{
+					Name: parts[index].GetName(), Renamed: parts[index].GetRenamed(), Prev: parts[index].GetPrev(),
+					Size: parts[index].GetFileSize(), Time: marshal.NanoTime{Time: parts[index].GetFileTime()},
+					Hash: parts[index].GetFileHash(), Source: "src",
+				}
+				beg, end := parts[index].GetSlice()
+				file.Parts = append(file.Parts, &sts.ByteRange{Beg: beg, End: end})
+				if gk.Dom.Dead() {
+					return 0, errConn
+				}
+				rerr := gk.Stage.Receive(file, next)
+				gk.restamp()
+				if gk.Dom.Dead() {
+					return 0, errConn
+				}
+				if rerr != nil {
+					if f.Kind == fCutMid && f.K == index {
+						return 0, errConn // the client never sees the partial-content answer
+					}
+					return index, fmt.Errorf("bin failed validation; successful part(s): %d", index)
+				}
+				if index < len(req.Acked) {
+					req.Acked[index] = true
+				}
+				w.log.add(wEvent{Kind: "recv_part", Req: id, Name: file.Name, A: beg, B: end, S: file.Hash})
+				index++
+			}
+			if f.Kind == fLostAnswer {
 				w.lat()
-				return index, fmt.Errorf("bin failed validation; successful part(s): %d", index)
-			case fCutMid:
-				b, e := parts[index].GetSlice()
-				keep := (e - b) / 2
-				next = &cutReader{r: next, left: keep}
-			case fCorrupt:
-				b, e := parts[index].GetSlice()
-				next = &flipReader{r: next, at: (e - b) / 2}
+				return 0, errConn
 			}
-		}
-		file := &sts.Partial{
-			Name: parts[index].GetName(), Renamed: parts[index].GetRenamed(), Prev: parts[index].GetPrev(),
-			Size: parts[index].GetFileSize(), Time: marshal.NanoTime{Time: parts[index].GetFileTime()},
-			Hash: parts[index].GetFileHash(), Source: "src",
-		}
-		beg, end := parts[index].GetSlice()
-		file.Parts = append(file.Parts, &sts.ByteRange{Beg: beg, End: end})
-		if gk.Dom.Dead() {
-			return 0, errConn
-		}
-		rerr := gk.Stage.Receive(file, next)
-		gk.restamp()
-		if gk.Dom.Dead() {
-			return 0, errConn
-		}
-		if rerr != nil {
-			if f.Kind == fCutMid && f.K == index {
-				return 0, errConn // the client never sees the partial-content answer
-			}
-			return index, fmt.Errorf("bin failed validation; successful part(s): %d", index)
-		}
-		if index < len(req.Acked) {
-			req.Acked[index] = true
-		}
-		w.log.add(wEvent{Kind: "recv_part", Req: id, Name: file.Name, A: beg, B: end, S: file.Hash})
-		index++
-	}
-	if f.Kind == fLostAnswer {
-		w.lat()
+			w.lat()
+			return len(parts), nil
+		}()
+		return txRes{n, err}
+	})
+	if died {
 		return 0, errConn
 	}
-	w.lat()
-	return len(parts), nil
+	return r.n, r.err
 }
 
 // recoverTx mirrors http.Client.RecoverTransmission + routeDataRecovery
@@ -745,8 +774,9 @@ func (s *sender) recoverTx(p sts.Payload) (n int, err error) {
 	if derr != nil {
 		return 0, fmt.Errorf("transmission recovery request failed with response code: 500")
 	}
-	n = gk.Stage.Received(dec.GetParts())
-	if gk.Dom.Dead() {
+	var died bool
+	n, died = serverCall(gk, func() int { return gk.Stage.Received(dec.GetParts()) })
+	if died || gk.Dom.Dead() {
 		return 0, errConn
 	}
 	w.lat()
@@ -793,19 +823,25 @@ func (s *sender) validate(sent []sts.Pollable) (out []sts.Polled, err error) {
 		return nil, fmt.Errorf("poll request failed: 503")
 	}
 	fmap := map[string]sts.Pollable{}
-	resp := map[string]int{}
 	for _, p := range sent {
 		fmap[p.GetName()] = p
-		// the wire carries the start time as unix seconds
-		code := gk.Stage.GetFileStatus(p.GetName(), time.Unix(p.GetStarted().Unix(), 0))
-		resp[p.GetName()] = code
-		req.Codes[p.GetName()] = code
-		if w.onStatus != nil {
-			w.onStatus(p.GetName(), code)
-		}
 	}
-	if gk.Dom.Dead() {
+	resp, died := serverCall(gk, func() map[string]int {
+		resp := map[string]int{}
+		for _, p := range sent {
+			// the wire carries the start time as unix seconds
+			resp[p.GetName()] = gk.Stage.GetFileStatus(p.GetName(), time.Unix(p.GetStarted().Unix(), 0))
+		}
+		return resp
+	})
+	if died || gk.Dom.Dead() {
 		return nil, errConn
+	}
+	for name, code := range resp {
+		req.Codes[name] = code
+		if w.onStatus != nil {
+			w.onStatus(name, code)
+		}
 	}
 	if f.Kind == fPollLost {
 		w.lat()
@@ -853,11 +889,21 @@ func (s *sender) recoverReq() (ps []*sts.Partial, err error) {
 	if !gk.Stage.Ready() {
 		return nil, fmt.Errorf("partials: 503")
 	}
-	b, serr := gk.Stage.Scan("1")
-	if serr != nil {
-		return nil, serr
+	type scanRes struct {
+		b   []byte
+		err error
 	}
-	ps, err = stage.ReadCompanions(bytes.NewReader(b))
+	sr, died := serverCall(gk, func() scanRes {
+		b, err := gk.Stage.Scan("1")
+		return scanRes{b, err}
+	})
+	if died {
+		return nil, errConn
+	}
+	if sr.err != nil {
+		return nil, sr.err
+	}
+	ps, err = stage.ReadCompanions(bytes.NewReader(sr.b))
 	w.lat()
 	return
 }
@@ -881,7 +927,9 @@ func (t *storeWrap) Scan(allow func(sts.File) bool) ([]sts.File, time.Time, erro
 func (t *storeWrap) GetOpener() sts.Open {
 	return func(f sts.File) (sts.Readable, error) {
 		if t.s.isDead() {
-			vfs.Park()
+			// the process is gone: whoever still pulls data (the receiver's handler
+			// reading the request body) sees the stream break
+			return nil, errConn
 		}
 		return t.s.store.Open(f)
 	}
